@@ -286,19 +286,19 @@ def save_effects(run, F, E):
 def run(run):
     scfgs = [c for c in facts.configs(run.tier) if facts.cfg_has(c, 'S')]
     run.require(scfgs, 'no configuration with serialization')
-    flow_rules.flow_obligations(run, {'C12.d', 'C01.a'}, cfgs=scfgs)
+    run.guard('flow obligations', flow_rules.flow_obligations, run, {'C12.d', 'C01.a'}, cfgs=scfgs)
     for c in scfgs:
         for v in facts.variants(run.tier):
             F = facts.load('w_core', c, v)
             E = effects.Effects(F)
             run.count('fact units')
-            field_tables(run, F, E)
-            save_effects(run, F, E)
+            run.guard('field tables', field_tables, run, F, E)
+            run.guard('save effects', save_effects, run, F, E)
             facts.drop(F)
             cfgmod.clear_cache()
-    nfamily.report(run, run.tier, 'C12.b')
+    run.guard('report', nfamily.report, run, run.tier, 'C12.b')
     from gen import static_units
-    static_units.report(run, 'C12.b', static_units.capacity_unit('C12.b'))
+    run.guard('report', static_units.report, run, 'C12.b', static_units.capacity_unit('C12.b'))
     run.floor('C12.a', 40)
     run.floor('C12.b', 60)
     run.floor('C12.c', 20)
